@@ -223,7 +223,7 @@ func checkC16(c *Ctx) *report.Result {
 				for _, k := range keys {
 					if k.Obj == oam.ID && own[k.Path] {
 						n++
-						if fn := fnName(outerFn(at.Parent())); !okFns[fn] {
+						if fn := fnName(outerFn(at.Parent())); !okFns[fn] && !c.onStack(okFns) {
 							viol[fn+" stores "+k.Path] = c.pos(at)
 						}
 					}
